@@ -1,9 +1,14 @@
 // C03 harness: lifetime of the elements of the owning tetl types, observed through an instrumented
 // element type.  Protocol: see lean/Tetl/C03/Driver.lean.  Output per line: `impl <TAB> std`.
 //
-// Every special member of `Elem<K, TY>` (K = copy+move / move-only / copy-only, TY = alternative tag)
-// reports to a registry keyed by address: live / dead / moved-from, and the type alive at that
-// address.  An illegal transition (constructor on a live address, any member on a dead one, second
+// Every user-provided special member of `Elem<K, TY>` (K = declared members copy+move / move-only / copy-only
+// plus one bit per special member that is DEFAULTED instead — the mixed kinds `da`, `dm`, `dc`; TY = alternative
+// tag) reports to a registry keyed by address: live / dead, and the type alive at that address; "moved-from" is
+// part of the object representation (val == -1), and a destructor leaves val == -2 behind.
+// A defaulted (trivial) member copies the object representation and is invisible to the registry; it sees the
+// consequences: an object that appears without a constructor call is *adopted* the first time a user-provided member
+// (or the sweep over the slots the owner claims, after every operation) meets it — unless its bytes are those of a
+// destroyed object; an object that is never destroyed stays in the registry; a constructor over a live one is an error.  An illegal transition (constructor on a live address, any member on a dead one, second
 // destructor, use as another type, move assignment of a value-holding object to itself) is recorded
 // as `life(<kind>)`, never aborted on.  Events are counted while a library call is in progress
 // (`Window`); objects the harness itself creates as arguments are flagged external.
@@ -43,14 +48,17 @@ using proto::Line;
 
 // ------------------------------------------------------------------ registry
 
+inline constexpr int MOVED = -1; // object representation of a moved-from element
+inline constexpr int DEAD  = -2; // what a destructor leaves behind
+
 struct Registry {
     struct Ent {
         int ty;
-        bool mf;
         bool ext;
     };
     std::map<std::uintptr_t, Ent> live;
     long vc = 0, cc = 0, mc = 0, ca = 0, ma = 0, d = 0;
+    long ad = 0; // objects that came to life through a defaulted (trivial) constructor and were adopted
     std::string err;
     bool window = false;
 
@@ -60,120 +68,157 @@ struct Registry {
         if (err.empty()) { err = std::string("life(") + what + ")"; }
     }
     static std::uintptr_t key(void const* p) { return reinterpret_cast<std::uintptr_t>(p); }
+    static int bytes(void const* p) { return *static_cast<int const volatile*>(p); }
 
-    // returns false when the source cannot be read
-    bool check_live(void const* p, int ty)
+    // an object nobody saw being constructed: legitimate for an element kind with a defaulted constructor, unless the
+    // bytes are those of a destroyed object
+    bool adopt(void const* p, int ty, bool may)
+    {
+        if (!may || bytes(p) == DEAD) { return false; }
+        live[key(p)] = Ent{ty, false};
+        ++ad;
+        return true;
+    }
+
+    // returns false when the object cannot be used
+    bool check_live(void const* p, int ty, bool may_adopt = false)
     {
         auto it = live.find(key(p));
-        if (it == live.end()) { fail("use-dead"); return false; }
+        if (it == live.end()) {
+            if (adopt(p, ty, may_adopt)) { return true; }
+            fail("use-dead");
+            return false;
+        }
         if (it->second.ty != ty) { fail("type-mismatch"); return false; }
         return true;
     }
-    void construct(void const* p, int ty, bool mf)
+    void construct(void const* p, int ty)
     {
         auto it = live.find(key(p));
         if (it != live.end()) { fail("construct-over-live"); }
-        live[key(p)] = Ent{ty, mf, !window};
+        live[key(p)] = Ent{ty, !window};
     }
-    bool is_mf(void const* p) const
+    void destroy(void const* p, int ty, bool may_adopt = false)
     {
         auto it = live.find(key(p));
-        return it != live.end() && it->second.mf;
-    }
-    void set_mf(void const* p, bool mf)
-    {
-        auto it = live.find(key(p));
-        if (it != live.end()) { it->second.mf = mf; }
-    }
-    void destroy(void const* p, int ty)
-    {
-        auto it = live.find(key(p));
-        if (it == live.end()) { fail("double-destroy"); return; }
+        if (it == live.end()) {
+            if (!adopt(p, ty, may_adopt)) { fail("double-destroy"); return; }
+            it = live.find(key(p));
+        }
         if (it->second.ty != ty) { fail("type-mismatch"); }
         live.erase(it);
     }
+    // sweep: a slot the owner claims to hold an element
+    void claim(std::uintptr_t p, int ty, bool may_adopt)
+    {
+        if (live.count(p) == 0) { adopt(reinterpret_cast<void const*>(p), ty, may_adopt); }
+    }
 };
 
-static Registry reg;
+inline Registry reg; // one registry for all translation units (the harness may be compiled in parts)
 
 struct Window {
     Window() { reg.window = true; }
     ~Window() { reg.window = false; }
 };
 
-enum Kind { CM = 0, MO = 1, CO = 2 };
+// element kind: bits 0-1 = which special members are declared, then one bit per special member that is DEFAULTED
+// on its first declaration (trivial: copies the bytes, leaves its source alone, invisible to the registry)
+enum Kind {
+    CM = 0, MO = 1, CO = 2,
+    DEF_CC = 4, DEF_MC = 8, DEF_CA = 16, DEF_MA = 32,
+    DA = CM | DEF_CA | DEF_MA, // defaulted copy / move assignment, user-provided constructors and destructor
+    DM = CM | DEF_MC | DEF_MA, // defaulted move operations, user-provided copy operations and destructor
+    DC = CM | DEF_CC | DEF_CA, // defaulted copy operations, user-provided move operations and destructor
+};
+constexpr int members(int k) { return k & 3; }
+constexpr bool has_copy(int k) { return members(k) != MO; }
+constexpr bool has_move(int k) { return members(k) != CO; }
+constexpr bool def(int k, int bit) { return (k & bit) != 0; }
+constexpr bool adopts(int k) { return def(k, DEF_CC) || def(k, DEF_MC); }
+
+inline int cur_kind = CM;
 
 template <int K, int TY>
 struct Elem {
     int val;
+    static constexpr bool A = adopts(K);
 
     Elem() noexcept : val(0)
     {
-        reg.construct(this, TY, false);
+        reg.construct(this, TY);
         if (reg.window) { ++reg.vc; }
     }
     explicit Elem(int v) noexcept : val(v)
     {
-        reg.construct(this, TY, false);
+        reg.construct(this, TY);
         if (reg.window) { ++reg.vc; }
     }
     Elem(Elem const& o) noexcept
-        requires(K != MO)
+        requires(has_copy(K) && !def(K, DEF_CC))
         : val(o.val)
     {
-        bool const ok = reg.check_live(&o, TY);
-        reg.construct(this, TY, ok && reg.is_mf(&o));
+        reg.check_live(&o, TY, A);
+        reg.construct(this, TY);
         if (reg.window) { ++reg.cc; }
     }
+    Elem(Elem const&)
+        requires(has_copy(K) && def(K, DEF_CC))
+    = default;
     Elem(Elem&& o) noexcept
-        requires(K != CO)
+        requires(has_move(K) && !def(K, DEF_MC))
         : val(o.val)
     {
-        bool const ok = reg.check_live(&o, TY);
-        reg.construct(this, TY, ok && reg.is_mf(&o));
-        if (ok) { reg.set_mf(&o, true); }
-        o.val = -1;
+        reg.check_live(&o, TY, A);
+        reg.construct(this, TY);
+        o.val = MOVED;
         if (reg.window) { ++reg.mc; }
     }
+    Elem(Elem&&)
+        requires(has_move(K) && def(K, DEF_MC))
+    = default;
     auto operator=(Elem const& o) noexcept -> Elem&
-        requires(K != MO)
+        requires(has_copy(K) && !def(K, DEF_CA))
     {
-        bool const okd = reg.check_live(this, TY);
-        bool const oks = reg.check_live(&o, TY);
-        if (okd && oks) { reg.set_mf(this, reg.is_mf(&o)); }
+        reg.check_live(this, TY, A);
+        reg.check_live(&o, TY, A);
         val = o.val;
         if (reg.window) { ++reg.ca; }
         return *this;
     }
+    auto operator=(Elem const&) -> Elem&
+        requires(has_copy(K) && def(K, DEF_CA))
+    = default;
     auto operator=(Elem&& o) noexcept -> Elem&
-        requires(K != CO)
+        requires(has_move(K) && !def(K, DEF_MA))
     {
-        bool const okd = reg.check_live(this, TY);
-        bool const oks = reg.check_live(&o, TY);
+        bool const okd = reg.check_live(this, TY, A);
+        reg.check_live(&o, TY, A);
         if (this == &o) {
             // the move assignment of this type resets its source: a value-holding object loses its value
-            if (okd && !reg.is_mf(this)) { reg.fail("self-move"); }
-            reg.set_mf(this, true);
-            val = -1;
+            if (okd && val != MOVED) { reg.fail("self-move"); }
+            val = MOVED;
         } else {
-            if (okd && oks) { reg.set_mf(this, reg.is_mf(&o)); }
-            val = o.val;
-            if (oks) { reg.set_mf(&o, true); }
-            o.val = -1;
+            val   = o.val;
+            o.val = MOVED;
         }
         if (reg.window) { ++reg.ma; }
         return *this;
     }
+    auto operator=(Elem&&) -> Elem&
+        requires(has_move(K) && def(K, DEF_MA))
+    = default;
     ~Elem() noexcept
     {
-        reg.destroy(this, TY);
+        reg.destroy(this, TY, A);
         if (reg.window) { ++reg.d; }
+        *const_cast<int volatile*>(&val) = DEAD;
     }
 
     // every other member function: the object must be alive
     [[nodiscard]] auto get() const noexcept -> int
     {
-        reg.check_live(this, TY);
+        reg.check_live(this, TY, A);
         return val;
     }
     auto operator()() const noexcept -> int { return get(); }
@@ -186,12 +231,21 @@ static_assert(!std::is_copy_constructible_v<Elem<MO, 0>> && !std::is_copy_assign
 static_assert(std::is_move_constructible_v<Elem<MO, 0>> && std::is_move_assignable_v<Elem<MO, 0>>);
 static_assert(std::is_copy_constructible_v<Elem<CO, 0>> && std::is_nothrow_move_constructible_v<Elem<CO, 0>>);
 static_assert(!std::is_trivial_v<Elem<CM, 0>> && sizeof(Elem<CM, 0>) == sizeof(int));
+// the mixed kinds: which traits the owners' `requires` clauses see (the builtin behind is_trivially_*_constructible
+// includes the destructor, so no kind with a user-provided destructor is trivially constructible)
+static_assert(std::is_trivially_copy_assignable_v<Elem<DA, 0>> && std::is_trivially_move_assignable_v<Elem<DA, 0>>);
+static_assert(!std::is_trivially_copy_constructible_v<Elem<DA, 0>> && !std::is_trivially_move_constructible_v<Elem<DA, 0>>);
+static_assert(std::is_trivially_move_assignable_v<Elem<DM, 0>> && !std::is_trivially_copy_assignable_v<Elem<DM, 0>>);
+static_assert(!std::is_trivially_move_constructible_v<Elem<DM, 0>> && std::is_nothrow_move_constructible_v<Elem<DM, 0>>);
+static_assert(std::is_trivially_copy_assignable_v<Elem<DC, 0>> && !std::is_trivially_move_assignable_v<Elem<DC, 0>>);
+static_assert(!std::is_trivially_copy_constructible_v<Elem<DC, 0>> && !std::is_trivially_destructible_v<Elem<DC, 0>>);
 
 // ------------------------------------------------------------------ observation helpers
 
 static std::string fmt_ent(std::uintptr_t addr, Registry::Ent const& e, bool with_ty)
 {
-    std::string v = e.mf ? std::string("M") : std::to_string(*reinterpret_cast<int const*>(addr));
+    int const raw = Registry::bytes(reinterpret_cast<void const*>(addr));
+    std::string v = raw == MOVED ? std::string("M") : std::to_string(raw);
     return with_ty ? std::to_string(e.ty) + ":" + v : v;
 }
 
@@ -209,11 +263,22 @@ static long count_temps(Region const& a, Region const& b)
     return t;
 }
 
+// cumulative event counts; a category whose member is defaulted in the current element kind is invisible (`-`), except
+// that with exactly one defaulted constructor the adoptions are the constructions through it
 static std::string counts()
 {
-    return " c=" + std::to_string(reg.vc) + "," + std::to_string(reg.cc) + "," + std::to_string(reg.mc) + ","
-         + std::to_string(reg.ca) + "," + std::to_string(reg.ma) + "," + std::to_string(reg.d);
+    int const k        = cur_kind;
+    bool const dcc     = def(k, DEF_CC);
+    bool const dmc     = def(k, DEF_MC);
+    auto num           = [](long v) { return std::to_string(v); };
+    std::string const c_cc = !dcc ? num(reg.cc) : (dmc ? std::string("-") : num(reg.ad));
+    std::string const c_mc = !dmc ? num(reg.mc) : (dcc ? std::string("-") : num(reg.ad));
+    std::string const c_ca = def(k, DEF_CA) ? std::string("-") : num(reg.ca);
+    std::string const c_ma = def(k, DEF_MA) ? std::string("-") : num(reg.ma);
+    return " c=" + num(reg.vc) + "," + c_cc + "," + c_mc + "," + c_ca + "," + c_ma + "," + num(reg.d);
 }
+
+static bool balanced() { return reg.vc + reg.cc + reg.mc + reg.ad == reg.d; }
 
 static std::string err_or_dash() { return reg.err.empty() ? "-" : reg.err; }
 
@@ -275,9 +340,12 @@ struct VecSession final : Session {
               std::conditional_t<O == Own::ss, etl::static_set<E, CAP>,
                                                etl::flat_set<E, SV>>>>>;
     // clang-format on
-    static constexpr bool copyable = K != MO;
+    static constexpr bool copyable = has_copy(K);
 
     Raw<T> obj[2];
+    // a corrupted owner that constructs past its storage (a constructor over a live object is invisible when it is a
+    // defaulted one) must not reach the std-side bookkeeping
+    unsigned char guard[1024] = {};
     // std side: sequence containers as std::vector<int>, sets as std::set<int> (kept in `vec`, sorted)
     AObj abs[2];
 
@@ -329,8 +397,26 @@ struct VecSession final : Session {
         return x;
     }
 
+    // adopt the elements the owner claims to hold that came to life through a defaulted constructor
+    void sweep()
+    {
+        // an owner whose size exceeds its capacity is corrupt: nothing after this line is executed
+        for (int t = 0; t < 2; ++t) {
+            if (size_of(t) > static_cast<std::size_t>(CAP)) { reg.fail("size-exceeds-capacity"); }
+        }
+        if constexpr (adopts(K)) {
+            if (!reg.err.empty()) return;
+            for (int t = 0; t < 2; ++t) {
+                auto base = obj[t].region().lo;
+                auto n    = std::min<std::size_t>(size_of(t), CAP);
+                for (std::size_t i = 0; i < n; ++i) { reg.claim(base + i * sizeof(E), 0, true); }
+            }
+        }
+    }
+
     std::string line() override
     {
+        sweep();
         std::string impl = "e=" + err_or_dash() + " t=" + std::to_string(count_temps(obj[0].region(), obj[1].region()))
                          + " x=" + std::to_string(misplaced(0) + misplaced(1)) + " A=" + obj_str(0) + " B=" + obj_str(1);
         std::string sd = "e=- t=0 x=0 A=" + abs[0].str(true) + " B=" + abs[1].str(true);
@@ -367,7 +453,7 @@ struct VecSession final : Session {
         for (auto const& [p, e] : reg.live) {
             if (!e.ext) { ++live; }
         }
-        bool const bal = reg.vc + reg.cc + reg.mc == reg.d;
+        bool const bal = balanced();
         return "e=" + err_or_dash() + " live=" + std::to_string(live) + " bal=" + (bal ? "1" : "0") + "\te=- live=0 bal=1";
     }
 
@@ -731,7 +817,7 @@ struct AltSession final : Session {
     using T = std::conditional_t<O == Own::var, etl::variant<E0, E1, E2>,
               std::conditional_t<O == Own::opt, etl::optional<E1>, etl::expected<E0, E1>>>;
     // clang-format on
-    static constexpr bool copyable = K != MO;
+    static constexpr bool copyable = has_copy(K);
     static constexpr int nalt      = O == Own::var ? 3 : 2;
     static bool trk(int j) { return O == Own::opt ? j == 1 : true; }
 
@@ -802,8 +888,39 @@ struct AltSession final : Session {
         return x;
     }
 
+    // address of the alternative the owner says it holds (no element member function runs)
+    void const* active(int t)
+    {
+        T& a = *obj[t];
+        if constexpr (O == Own::var) {
+            switch (a.index()) {
+            case 0: return &a[etl::index_v<0>];
+            case 1: return &a[etl::index_v<1>];
+            default: return &a[etl::index_v<2>];
+            }
+        } else if constexpr (O == Own::opt) {
+            return a.has_value() ? static_cast<void const*>(&*a) : nullptr;
+        } else {
+            return a.has_value() ? static_cast<void const*>(&*a) : static_cast<void const*>(&a.error());
+        }
+    }
+
+    // adopt the alternative the owner claims to hold if it came to life through a defaulted constructor
+    void sweep()
+    {
+        if constexpr (adopts(K)) {
+            if (!reg.err.empty()) return;
+            for (int t = 0; t < 2; ++t) {
+                int const ix = index_of(t);
+                if (!trk(ix)) continue;
+                if (auto const* p = active(t)) { reg.claim(Registry::key(p), ix, true); }
+            }
+        }
+    }
+
     std::string line() override
     {
+        sweep();
         std::string impl = "e=" + err_or_dash() + " t=" + std::to_string(count_temps(obj[0].region(), obj[1].region()))
                          + " x=" + std::to_string(misplaced(0) + misplaced(1)) + " A=" + obj_str(0) + " B=" + obj_str(1);
         std::string sd = "e=- t=0 x=0 A=" + abs[0].str(false) + " B=" + abs[1].str(false);
@@ -837,7 +954,7 @@ struct AltSession final : Session {
         for (auto const& [p, e] : reg.live) {
             if (!e.ext) { ++live; }
         }
-        bool const bal = reg.vc + reg.cc + reg.mc == reg.d;
+        bool const bal = balanced();
         return "e=" + err_or_dash() + " live=" + std::to_string(live) + " bal=" + (bal ? "1" : "0") + "\te=- live=0 bal=1";
     }
 
@@ -1032,6 +1149,7 @@ struct FnSession final : Session {
 
     FnSession()
     {
+        (void)storage_offset();
         for (int t = 0; t < 2; ++t) {
             Window w;
             new (obj[t].buf) T{};
@@ -1075,8 +1193,42 @@ struct FnSession final : Session {
         bool const found = entry(t, p, e, extra);
         return extra + (found != static_cast<bool>(*obj[t]) ? 1 : 0);
     }
+    // where a function object keeps its callable: found once with a fully instrumented callable
+    static std::size_t storage_offset()
+    {
+        static std::size_t const off = [] {
+            Registry const saved = reg;
+            reg.reset();
+            std::size_t r = 0;
+            {
+                Raw<T> f;
+                Elem<CM, 0> x(1);
+                new (f.buf) T(std::as_const(x));
+                for (auto const& [q, en] : reg.live) {
+                    if (f.region().has(q)) { r = q - f.region().lo; }
+                }
+                f->~T();
+            }
+            reg = saved;
+            return r;
+        }();
+        return off;
+    }
+    // adopt the callable the owner claims to hold if it came to life through a defaulted constructor; its type is the
+    // one the history gave this owner (the std-side bookkeeping)
+    void sweep()
+    {
+        if constexpr (adopts(K)) {
+            if (!reg.err.empty()) return;
+            for (int t = 0; t < 2; ++t) {
+                if (!static_cast<bool>(*obj[t]) || abs[t].unspec || abs[t].ix == 0) continue;
+                reg.claim(obj[t].region().lo + storage_offset(), abs[t].ix - 1, true);
+            }
+        }
+    }
     std::string line() override
     {
+        sweep();
         std::string impl = "e=" + err_or_dash() + " t=" + std::to_string(count_temps(obj[0].region(), obj[1].region()))
                          + " x=" + std::to_string(misplaced(0) + misplaced(1)) + " A=" + obj_str(0) + " B=" + obj_str(1);
         std::string sd = "e=- t=0 x=0 A=" + abs[0].str(false) + " B=" + abs[1].str(false);
@@ -1108,7 +1260,7 @@ struct FnSession final : Session {
         for (auto const& [p, e] : reg.live) {
             if (!e.ext) { ++live; }
         }
-        bool const bal = reg.vc + reg.cc + reg.mc == reg.d;
+        bool const bal = balanced();
         return "e=" + err_or_dash() + " live=" + std::to_string(live) + " bal=" + (bal ? "1" : "0") + "\te=- live=0 bal=1";
     }
     void set_abs(AObj& A, int j, int v)
@@ -1235,8 +1387,8 @@ struct FnSession final : Session {
 };
 
 // ---------------------------------------------------------------- dispatch
-
-static std::unique_ptr<Session> cur;
+// -DC03_PART=k (k = 0..5) compiles only the sessions of one element kind (make_kind_k); -DC03_PART=-1 compiles main() and
+// links the parts; without C03_PART everything is one translation unit.
 
 template <Own O, int K>
 static std::unique_ptr<Session> make_vec(int cap)
@@ -1260,11 +1412,40 @@ static std::unique_ptr<Session> make_session(std::string const& own, int cap)
     if (own == "var") return std::make_unique<AltSession<Own::var, K>>();
     if (own == "opt") return std::make_unique<AltSession<Own::opt, K>>();
     if (own == "exp") return std::make_unique<AltSession<Own::exp, K>>();
-    if constexpr (K != MO) {
+    if constexpr (has_copy(K)) {
         if (own == "fn") return std::make_unique<FnSession<K>>();
     }
     return nullptr;
 }
+
+std::unique_ptr<Session> make_kind_0(std::string const& own, int cap);
+std::unique_ptr<Session> make_kind_1(std::string const& own, int cap);
+std::unique_ptr<Session> make_kind_2(std::string const& own, int cap);
+std::unique_ptr<Session> make_kind_3(std::string const& own, int cap);
+std::unique_ptr<Session> make_kind_4(std::string const& own, int cap);
+std::unique_ptr<Session> make_kind_5(std::string const& own, int cap);
+
+#if !defined(C03_PART) || C03_PART == 0
+std::unique_ptr<Session> make_kind_0(std::string const& own, int cap) { return make_session<CM>(own, cap); }
+#endif
+#if !defined(C03_PART) || C03_PART == 1
+std::unique_ptr<Session> make_kind_1(std::string const& own, int cap) { return make_session<MO>(own, cap); }
+#endif
+#if !defined(C03_PART) || C03_PART == 2
+std::unique_ptr<Session> make_kind_2(std::string const& own, int cap) { return make_session<CO>(own, cap); }
+#endif
+#if !defined(C03_PART) || C03_PART == 3
+std::unique_ptr<Session> make_kind_3(std::string const& own, int cap) { return make_session<DA>(own, cap); }
+#endif
+#if !defined(C03_PART) || C03_PART == 4
+std::unique_ptr<Session> make_kind_4(std::string const& own, int cap) { return make_session<DM>(own, cap); }
+#endif
+#if !defined(C03_PART) || C03_PART == 5
+std::unique_ptr<Session> make_kind_5(std::string const& own, int cap) { return make_session<DC>(own, cap); }
+#endif
+
+#if !defined(C03_PART) || C03_PART == -1
+static std::unique_ptr<Session> cur;
 
 static std::string step(Line const& l)
 {
@@ -1278,9 +1459,12 @@ static std::string step(Line const& l)
         auto const& own  = l.str("own");
         auto const& kind = l.str("kind");
         int const cap    = static_cast<int>(l.i("cap", 1));
-        if (kind == "cm") cur = make_session<CM>(own, cap);
-        else if (kind == "mo") cur = make_session<MO>(own, cap);
-        else if (kind == "co") cur = make_session<CO>(own, cap);
+        if (kind == "cm") { cur_kind = CM; cur = make_kind_0(own, cap); }
+        else if (kind == "mo") { cur_kind = MO; cur = make_kind_1(own, cap); }
+        else if (kind == "co") { cur_kind = CO; cur = make_kind_2(own, cap); }
+        else if (kind == "da") { cur_kind = DA; cur = make_kind_3(own, cap); }
+        else if (kind == "dm") { cur_kind = DM; cur = make_kind_4(own, cap); }
+        else if (kind == "dc") { cur_kind = DC; cur = make_kind_5(own, cap); }
         if (!cur) return bad;
         return cur->line();
     }
@@ -1298,3 +1482,4 @@ static std::string step(Line const& l)
 }
 
 int main(int argc, char** argv) { return proto::run(argc, argv, step); }
+#endif
